@@ -1,8 +1,12 @@
 """C02 - flags of a tag: _extract_flags separates the reserved flag words from the other attributes.
 
-From the property ("flags"): every attribute whose text is a reserved flag word is removed from the attribute list and turns
-that flag on; all other attributes stay, in order; every allowed flag has a value (False unless given); a flag given twice or
-spread is a TemplateSyntaxError.
+From the property ("flags"; "exactly the positional and keyword values its arguments denote"): every attribute WITHOUT a key
+whose text is a reserved flag word is removed from the attribute list and turns that flag on; all other attributes - in
+particular a keyword argument whose value happens to be spelled like a flag (`mode=only` denotes the keyword `mode` with the
+value of the variable `only`) - stay, in order; every allowed flag has a value (False unless given); a flag given twice or spread
+is a TemplateSyntaxError.
+(An earlier version of this contract defined "is a flag" by the text with the key omitted - the code's own choice, not the
+property's - and thereby encoded a defect: known_findings, fixed C02.)
 """
 import z3
 
@@ -28,13 +32,26 @@ def spread(a):
     return ops.uf("tag_attr_value_spread", ATTR.sort(), B)(a)
 
 
+def has_key(a):
+    return ops.uf("tag_attr_has_key", ATTR.sort(), B)(a)
+
+
+def key_text(a):
+    return ops.uf("tag_attr_key_text", ATTR.sort(), S)(a)
+
+
+from pyvc.contracts import Opt as _Opt          # noqa: E402
+_OS = _Opt(Str)
+REG.stub(("getattr", "TagAttr", "key"), lambda run, obj, node: Val(_OS, z3.If(has_key(obj.t), _OS.some(key_text(obj.t)), _OS.none())))
+
+
 REG.stub(("method", "TagAttr", "serialize"), lambda run, obj, args, kwargs, node: Val(TStr, text(obj.t)))
 REG.stub(("getattr", "TagAttr", "value"), lambda run, obj, node: __import__("pyvc.types", fromlist=["Conc"]).Conc(("obj_kind", "tagvalue_of", obj)))
 REG.stub(("getattr", "conc:obj_kind:tagvalue_of", "spread"), lambda run, obj, node: Val(TBool, spread(obj.obj[2].t)))
 
 
 def _is_flag(c, a):
-    return z3.Contains(c.old("allowed_flags").t, z3.Unit(text(a)))
+    return z3.And(z3.Not(has_key(a)), z3.Contains(c.old("allowed_flags").t, z3.Unit(text(a))))
 
 
 def _kept():
@@ -45,7 +62,7 @@ def _entry(run, fr):
     attrs, allowed = fr.vars["attrs"].t, fr.vars["allowed_flags"].t
     kept = _kept()
     i = z3.FreshConst(I, "i")
-    isf = z3.Contains(allowed, z3.Unit(text(attrs[i])))
+    isf = z3.And(z3.Not(has_key(attrs[i])), z3.Contains(allowed, z3.Unit(text(attrs[i]))))
     for ax in (kept(0) == z3.Empty(ATTRS.sort()),
                z3.ForAll([i], z3.Implies(z3.And(0 <= i, i < z3.Length(attrs)), kept(i + 1) == z3.If(isf, kept(i), z3.Concat(kept(i), z3.Unit(attrs[i])))))):
         run.pc.append(ax)
@@ -64,7 +81,7 @@ def _inv(c):
         z3.ForAll([f], z3.Select(SS.has(found), f) == z3.Exists([j], z3.And(0 <= j, j < i, text(attrs[j]) == f, _is_flag(c, attrs[j])))),
         z3.ForAll([j], z3.Implies(z3.And(0 <= j, j < i, _is_flag(c, attrs[j])), z3.Not(spread(attrs[j])))),
         z3.ForAll([j, z3.Const("bv_k", I)], z3.Implies(z3.And(0 <= z3.Const("bv_k", I), z3.Const("bv_k", I) < j, j < i, _is_flag(c, attrs[j])),
-                                                      text(attrs[z3.Const("bv_k", I)]) != text(attrs[j]))),
+                                                      z3.Or(has_key(attrs[z3.Const("bv_k", I)]), text(attrs[z3.Const("bv_k", I)]) != text(attrs[j])))),
     )
 
 
@@ -76,7 +93,7 @@ def _post(c):
     R = c["result"]
     RT = R.ty
     rem, fd = RT.proj(R.t, 0), RT.proj(R.t, 1)
-    given = z3.Exists([j], z3.And(0 <= j, j < z3.Length(attrs), text(attrs[j]) == f))
+    given = z3.Exists([j], z3.And(0 <= j, j < z3.Length(attrs), z3.Not(has_key(attrs[j])), text(attrs[j]) == f))
     return z3.And(
         rem == _kept()(z3.Length(attrs)),
         z3.ForAll([f], z3.Select(FDICT.has(fd), f) == z3.Contains(allowed, z3.Unit(f))),
@@ -89,7 +106,7 @@ def _bad(c):
     j, k = z3.Const("bv_j", I), z3.Const("bv_k", I)
     n = z3.Length(attrs)
     return z3.Exists([j], z3.And(0 <= j, j < n, _is_flag(c, attrs[j]),
-                                 z3.Or(spread(attrs[j]), z3.Exists([k], z3.And(0 <= k, k < j, text(attrs[k]) == text(attrs[j]))))))
+                                 z3.Or(spread(attrs[j]), z3.Exists([k], z3.And(0 <= k, k < j, z3.Not(has_key(attrs[k])), text(attrs[k]) == text(attrs[j]))))))
 
 
 REG.contract(
@@ -104,7 +121,7 @@ REG.contract(
 
 @REG.replay(f"{TT}:_extract_flags")
 def _replay_extract_flags(model, ob):
-    """every tag of up to 3 attributes over {a, k=1, only, deep, ...only (spread)} parsed by the real parse_tag and split by the
+    """every tag of up to 3 attributes over {a, k=1, only, deep, ...only (spread), k=only, m=deep} parsed by the real parse_tag and split by the
     real _extract_flags with allowed flags [only, deep], against the specification computed directly"""
     import itertools
     from django.conf import settings
@@ -117,7 +134,7 @@ def _replay_extract_flags(model, ob):
     from django_components.util.tag_parser import parse_tag
     from django_components.util.template_tag import _extract_flags
     eng = Engine.get_default()
-    words = ["a", "k=1", "only", "deep", "...only"]
+    words = ["a", "k=1", "only", "deep", "...only", "k=only", "m=deep"]
     allowed = ["only", "deep"]
     for n in range(0, 4):
         for combo in itertools.product(words, repeat=n):
@@ -125,12 +142,13 @@ def _replay_extract_flags(model, ob):
             _tag, attrs = parse_tag("t " + " ".join(combo), parser)
             attrs = attrs[1:] if attrs and attrs[0].serialize(omit_key=True) == "t" else attrs
             texts = [a.serialize(omit_key=True) for a in attrs]
-            flags_seen = [(t, a.value.spread) for t, a in zip(texts, attrs) if t in allowed]
+            full = [a.serialize() for a in attrs]
+            flags_seen = [(t, a.value.spread) for t, a in zip(texts, attrs) if t in allowed and a.key is None]
             bad = any(sp for _t, sp in flags_seen) or len({t for t, _sp in flags_seen}) != len(flags_seen)
-            want = None if bad else ([t for t in texts if t not in allowed], {f: (f in texts) for f in allowed})
+            want = None if bad else ([t for t in full if t not in allowed], {f: (f in full) for f in allowed})
             try:
                 rem, fd = _extract_flags("t", attrs, allowed)
-                got = ([a.serialize(omit_key=True) for a in rem], dict(fd))
+                got = ([a.serialize() for a in rem], dict(fd))
             except TemplateSyntaxError:
                 got = None
             if got != want:
